@@ -494,13 +494,45 @@ theorem Keep.holderDefault {r : Nat} (sys : Sys) {ho : HolderObj} (hho : InReg r
 
 /-! ## simulation operations -/
 
+theorem Keep.dispatchOne {r : Nat} (sys : Sys) {ho : HolderObj} (hho : InReg r (.holder ho)) (a : Vec) (sub : Period) :
+    Keep r (dispatchOne sys ho a sub) (fun _ => True) := by
+  unfold Heap.dispatchOne
+  refine Keep.bind (Keep.holderFind hho sub) fun found _ => ?_
+  cases found with
+  | some _ => exact Keep.pure _ trivial
+  | none => exact Keep.holderSet sys hho sub a
+
+theorem Keep.dispatchLoop {r : Nat} (sys : Sys) {ho : HolderObj} (hho : InReg r (.holder ho)) (a : Vec) (after : Date) :
+    ∀ (n : Nat) (sub : Period), Keep r (dispatchLoop sys ho a after n sub) (fun _ => True) := by
+  intro n
+  induction n with
+  | zero => intro sub; exact Keep.fail _
+  | succ n ih =>
+    intro sub
+    unfold Heap.dispatchLoop
+    refine Keep.ite (fun _ => ?_) fun _ => Keep.pure _ trivial
+    refine Keep.bind (Keep.dispatchOne sys hho a sub) fun _ _ => ?_
+    exact Keep.bind (Keep.ofPeriod _ fun _ _ => trivial) fun nxt _ => ih nxt
+
+theorem Keep.dispatchInput {r : Nat} (sys : Sys) {ho : HolderObj} (hho : InReg r (.holder ho)) (decl : VarDecl)
+    (p : Period) (a : Vec) : Keep r (dispatchInput sys ho decl p a) (fun _ => True) := by
+  unfold Heap.dispatchInput
+  refine Keep.bind (Keep.rdPop hho.1) fun po _ => ?_
+  refine Keep.ite (fun _ => Keep.fail _) fun _ => ?_
+  refine Keep.ite (fun _ => Keep.fail _) fun _ => ?_
+  refine Keep.bind (Keep.ofPeriod _ fun _ _ => trivial) fun after _ => ?_
+  cases after with
+  | none => exact Keep.fail _
+  | some af => exact Keep.dispatchLoop sys hho a af _ _
+
 theorem Keep.setInput {r : Nat} (sys : Sys) {x : Id} (hx : x.reg = r) (v : Var) (p : Period) (a : Vec) :
     Keep r (setInput sys x v p a) (fun _ => True) := by
   unfold Heap.setInput
   refine Keep.bind (Keep.varDecl sys v) fun decl _ => ?_
   refine Keep.bind (Keep.getHolder sys hx v) fun y hy => ?_
   obtain ⟨hid, ho⟩ := y
-  exact Keep.ite (fun _ => Keep.fail _) fun _ => Keep.holderSet sys hy.2 p a
+  refine Keep.ite (fun _ => Keep.fail _) fun _ => ?_
+  exact Keep.ite (fun _ => Keep.dispatchInput sys hy.2 decl p a) fun _ => Keep.holderSet sys hy.2 p a
 
 theorem Keep.setInputBad {r : Nat} (sys : Sys) {x : Id} (hx : x.reg = r) (v : Var) (p : Period) :
     Keep r (setInputBad sys x v p) (fun _ => True) := by
@@ -580,6 +612,10 @@ theorem Keep.evalTerm {r : Nat} (sys : Sys) {rec : Id → Var → Period → HM 
   refine Keep.bind (Keep.rdPop hp) fun po hpo => ?_
   cases t.via with
   | same => exact Keep.ite (fun _ => Keep.fail _) fun _ => hrec _ _ _ hpo.1
+  | enumIs k =>
+    simp only
+    refine Keep.ite (fun _ => Keep.fail _) fun _ => ?_
+    exact Keep.bind (hrec _ _ _ hpo.1) fun a _ => Keep.pure _ trivial
   | members =>
     simp only
     refine Keep.bind (Q := fun (m : Id) => m.reg = r) (Keep.ofOption _ _ fun a ha => hpo.2.2 a ha) fun mid hmid => ?_
@@ -653,8 +689,14 @@ theorem Keep.computeAndStore {r : Nat} (sys : Sys) {rec : Id → Var → Period 
   refine Keep.bind (Keep.formulaValue sys hrec p decl hp hho) fun a _ => ?_
   exact Keep.bind (Keep.putInCache sys hho p a) fun _ _ => Keep.pure _ trivial
 
-theorem Keep.taintOnHit {r : Nat} {x : Id} (hx : x.reg = r) (v : Var) (p : Period) :
-    Keep r (taintOnHit x v p) (fun _ => True) := by
+theorem Keep.invalidateEntry {r : Nat} {x : Id} (hx : x.reg = r) (v : Var) (p : Period) :
+    Keep r (invalidateEntry x v p) (fun _ => True) := by
+  unfold Heap.invalidateEntry
+  refine Keep.bind (Keep.rdSim hx) fun so hso => ?_
+  exact Keep.bind (Keep.rdInval hso.2.2.2.1) fun inv _ => Keep.wrLeaf hso.2.2.2.1 trivial
+
+theorem Keep.taintOnHit {r : Nat} {x : Id} (hx : x.reg = r) (v : Var) (p : Period) (et : Bool) :
+    Keep r (taintOnHit x v p et) (fun _ => True) := by
   unfold Heap.taintOnHit
   refine Keep.bind (Keep.rdSim hx) fun so hso => ?_
   refine Keep.bind (Keep.rdInval hso.2.2.2.1) fun inv _ => ?_
@@ -672,7 +714,7 @@ theorem Keep.calcInner {r : Nat} (sys : Sys) {rec : Id → Var → Period → HM
   refine Keep.ite (fun _ => Keep.fail _) fun _ => ?_
   refine Keep.bind (Keep.holderFind hy.2 p) fun found _ => ?_
   cases found with
-  | some a => exact Keep.bind (Keep.taintOnHit hx v p) fun _ _ => Keep.pure _ trivial
+  | some a => exact Keep.bind (Keep.taintOnHit hx v p _) fun _ _ => Keep.pure _ trivial
   | none => exact Keep.catchSpiral (Keep.computeAndStore sys hrec hx v p decl hpid hy.2) (Keep.holderDefault sys hy.2)
 
 theorem Keep.calcF {r : Nat} (sys : Sys) (n : Nat) : RecKeep r (calcF sys n) := by
@@ -777,6 +819,9 @@ theorem step_keep {r : Nat} (sys : Sys) (fuel : Nat) {x : Id} (hx : x.reg = r) (
     cases a with
     | none => exact Keep.pure _ trivial
     | some a => exact Keep.pure _ trivial
+  | invalidate v p =>
+    unfold step
+    exact Keep.bind (Keep.invalidateEntry hx v p) fun _ _ => Keep.pure _ trivial
 
 
 end OFCore.Heap
